@@ -32,14 +32,19 @@ func Signer(i int) sdk.AccAddress { return Addr(3 + i) }
 // NewEntEnv: params = {denom nund, k ∈ 1..3 authorised signers from the pool, symbolic MinAccepts
 // in 1..k, symbolic DecisionTimeLimit >= 1}; enterprise module account with the permissions the
 // application gives it (app/app.go maccPerms: Minter, Staking; checked by H_C02_Wiring).
-func NewEntEnv(now time.Time, checkTx bool) *EntEnv {
-	e := NewEnv(now, checkTx)
+func NewEntEnv(now time.Time, checkTx bool) *EntEnv { return NewEntEnvOn(NewEnv(now, checkTx), 0) }
+
+// NewEntEnvOn: nsign = 0 lets the number of authorised signers vary over 1..3.
+func NewEntEnvOn(e *Env, nsign int) *EntEnv {
 	escrow := e.Bank.AddModule(enttypes.ModuleName, authtypes.Minter, authtypes.Staking)
 	e.Bank.Block(escrow)
 	key := storetypes.NewKVStoreKey(enttypes.StoreKey)
 	k := entkeeper.NewKeeper(key, e.Bank, e.Bank, rt.Codec(), Authority())
 	ee := &EntEnv{Env: e, K: k, Key: key, Escrow: escrow, Denom: "nund"}
-	ee.NSign = 1 + rt.Choose(3)
+	ee.NSign = nsign
+	if nsign == 0 {
+		ee.NSign = 1 + rt.Choose(3)
+	}
 	var ss []string
 	for i := 0; i < ee.NSign; i++ {
 		ss = append(ss, Signer(i).String())
@@ -103,14 +108,17 @@ type entBooks struct {
 	HasLockedRecord [2]bool
 }
 
-func setupBooks(ee *EntEnv) entBooks {
+func setupBooks(ee *EntEnv) entBooks { return setupBooksOpt(ee, true) }
+
+// setupBooksOpt: withAbsent also explores the state in which the accounts have no records yet.
+func setupBooksOpt(ee *EntEnv, withAbsent bool) entBooks {
 	var b entBooks
 	k, ctx := ee.K, ee.Ctx
 	b.OtherLocked = rt.BigInt("otherLocked", 0, 128)
 	b.OtherSpent = rt.BigInt("otherSpent", 0, 128)
 	totalLocked, totalSpent := b.OtherLocked, b.OtherSpent
 	// either both accounts have locked/spent records, or neither has one (reads as zero)
-	has := rt.Choose(2) == 0
+	has := !withAbsent || rt.Choose(2) == 0
 	for i := 0; i < 2; i++ {
 		tag := "acc" + string(rune('0'+i))
 		b.Locked[i] = rt.BigInt(tag+".locked", 0, 128)
@@ -361,7 +369,7 @@ func H_C03_BeginBlock() {
 		maxQ = 2
 	}
 	na := rt.Choose(maxQ + 1)
-	nr := rt.Choose(maxQ + 1)
+	nr := rt.Choose(3) // two raised orders also in the quick tier: tallies must not interfere
 	// ids: strictly increasing symbolic ids, interleaved: a0 < r0 < a1 < r1 < done < rejd < highest
 	var ids [6]uint64
 	for i := range ids {
@@ -392,7 +400,11 @@ func H_C03_BeginBlock() {
 		k.AddPoToAcceptedQueue(ctx, accepted[i].Id)
 	}
 	for i := 0; i < nr; i++ {
-		raised[i] = anyOrder("r"+string(rune('0'+i)), ids[2*i+1], Addr(1), enttypes.StatusRaised, maxDec, nowSec)
+		md := maxDec
+		if i == 1 && !rt.Thorough() {
+			md = 1
+		}
+		raised[i] = anyOrder("r"+string(rune('0'+i)), ids[2*i+1], Addr(1), enttypes.StatusRaised, md, nowSec)
 		_ = k.SetPurchaseOrder(ctx, raised[i])
 		k.AddPoToRaisedQueue(ctx, raised[i].Id)
 	}
